@@ -175,41 +175,38 @@ def run(chk):
     mj, mn, pa, sf = [t.id for t in comp[0].targets[0].elts]
     strict_kw = source.arg_of(comp[0].value, 1, "strict")
     chk.ob("O15.3", "branch names parsed non-strictly (M, M.m allowed)", strict_kw is not None and source.is_const(strict_kw, False), comp[0], "")
-    MINOR = ["none", "zero", "less", "equal", "greater"]
+    # the loop body is decided on VALUES: target 8.5, candidate major in (7, 8, 9), minor in (None, 0, 3, 5, 7), patch in (None, 1), suffix in (None, 'x');
+    # every test is evaluated as Python would (including truthiness of a bare name), so operator choice, orientation and arm order are free
+    from sa import minieval
 
-    def atom(n, env):
-        t = u(n)
-        m = env["minor"]
-        tab = {
-            f"{pa} is not None": env["patch"], f"{pa} is None": not env["patch"], f"{sf} is not None": env["suffix"], f"{sf} is None": not env["suffix"],
-            f"{mj} == {tgt}.major": env["major_eq"], f"{tgt}.major == {mj}": env["major_eq"], f"{mj} != {tgt}.major": not env["major_eq"],
-            f"{mn} is not None": m != "none", f"{mn} is None": m == "none",
-            f"{mn} <= {tgt}.minor": m in ("zero", "less", "equal"), f"{tgt}.minor >= {mn}": m in ("zero", "less", "equal"),
-            f"{mn} < {tgt}.minor": m in ("zero", "less"), f"{tgt}.minor > {mn}": m in ("zero", "less"),
-            f"{mn} > {tgt}.minor": m == "greater", f"{mn} >= {tgt}.minor": m in ("equal", "greater"),
-            mn: m not in ("none", "zero"),  # truthiness of the bare name (what Python would do): false for None AND for 0
-            pa: env["patch"], sf: env["suffix"],
-            f"is_version_identifier({u(LL.target)}, strict=False)": True,
-        }
-        return tab.get(t)
-
+    MINOR = {"none": None, "zero": 0, "less": 3, "equal": 5, "greater": 7}
+    MAJOR = {"lower": 7, "same": 8, "higher": 9}
     body = [s for s in LL.body]
     rows = 0
-    for major_eq, m, patch, suffix in itertools.product([True, False], MINOR, [False, True], [False, True]):
-        if m == "none" and patch:
+    for (mjn, mjv), (m, mnv), patch, suffix in itertools.product(MAJOR.items(), MINOR.items(), [None, 1], [None, "x"]):
+        if mnv is None and patch is not None:
             continue  # a patch without a minor cannot be written
-        env = {"major_eq": major_eq, "minor": m, "patch": patch, "suffix": suffix}
+        vals = {mj: mjv, mn: mnv, pa: patch, sf: suffix, tgt: minieval.Record(major=8, minor=5, patch=0, suffix=None)}
+
+        def atom(n, env):
+            if isinstance(n, ast.Call) and last_attr(n.func) == "is_version_identifier":
+                return True
+            try:
+                return bool(minieval.ev(n, dict(vals)))
+            except minieval.CannotEval:
+                return None
+
         try:
-            out = decide(body, atom, env)
+            out = decide(body, atom, {})
         except (Unsupported, UnknownAtom) as e:
-            chk.unknown("O15.3", f"eligibility is not a decision over the role atoms: {e}", LL)
+            chk.unknown("O15.3", f"eligibility is not a decision over (major, minor, patch, suffix) of the candidate and the target: {e}", LL)
             break
         eligible = any(isinstance(e, ast.Call) and last_attr(e.func) == "append" and u(e.args[0]) == mn for e in out.effects)
-        want = major_eq and m in ("zero", "less", "equal") and not patch and not suffix
-        accept = eligible == want or (m == "equal" and major_eq and not patch and not suffix)  # `<` is accepted: the equal minor is taken by the exact step
+        want = mjn == "same" and m in ("zero", "less", "equal") and patch is None and suffix is None
+        accept = eligible == want or (m == "equal" and mjn == "same" and patch is None and suffix is None)  # `<` is accepted: the equal minor is taken by the exact step
         rows += 1
-        chk.ob("O15.3", f"eligible? major {'same' if major_eq else 'other'}, minor {m}, patch {'set' if patch else 'none'}, suffix {'set' if suffix else 'none'}", accept, LL,
-               f"code: {'eligible' if eligible else 'not eligible'}; documented: {'eligible' if want else 'not eligible'}", key=f"{_V}:latest_bounded_minor:row:{major_eq}|{m}|{patch}|{suffix}")
+        chk.ob("O15.3", f"eligible? major {mjn}, minor {m}, patch {'set' if patch else 'none'}, suffix {'set' if suffix else 'none'}", accept, LL,
+               f"code: {'eligible' if eligible else 'not eligible'}; documented: {'eligible' if want else 'not eligible'}", key=f"{_V}:latest_bounded_minor:row:{mjn}|{m}|{patch is not None}|{suffix is not None}")
     # result: nearest of eligible
     rets = [n for n in lb.body if isinstance(n, ast.Return)] + [n for n in walk_body(lb) if isinstance(n, ast.Return) and n not in lb.body]
     final = [r for r in rets if not (isinstance(r.value, ast.Constant) and r.value.value is None)]
@@ -288,6 +285,15 @@ def run(chk):
     ok = bool(raises) and any((not pol) and u(t) == "tag" for t, pol in guards(raises[0]))
     chk.ob("O15.4", "explicit error when nothing qualifies", ok, raises[0] if raises else up, "")
     cos = [n for n in walk_body(up) if isinstance(n, ast.Call) and dotted(n.func) == "git.checkout"]
+    # the revision pinned for later loads (workers re-load with it) is the head AFTER the ref was switched: no checkout / rebase can follow a revision read
+    revw = [n for n in walk_body(up) if isinstance(n, ast.Assign) and any(is_self_attr(t, "revision") for t in n.targets) and isinstance(n.value, ast.Call) and last_attr(n.value.func) == "head_revision"]
+    movers = [n for n in walk_body(up) if isinstance(n, ast.Call) and dotted(n.func) in ("git.checkout", "git.rebase", "git.pull", "git.fetch")]
+    for w_ in revw:
+        later = [m_ for m_ in movers if gu.path_exists(gu.node_of(w_), gu.node_of(m_)) and gu.node_of(w_) is not gu.node_of(m_)]
+        chk.ob("O15.4", "the pinned revision is read after the last ref-changing git call", not later, w_,
+               "" if not later else f"`{short(later[0], 50)}` (line {later[0].lineno}) can still run after the revision was recorded: later loads check out the commit Rally was on BEFORE selecting the branch",
+               key=f"esrally/utils/repo.py:RallyRepository.update:revision-after-checkout:{len([x for x in revw if x.lineno < w_.lineno])}")
+    chk.ob("O15.4", "revision recorded after a checkout", len(revw) >= 2, revw[0] if revw else up, f"{len(revw)} site(s)")
     for c in cos:
         ref = source.arg_of(c, 1, "branch")
         d = None
